@@ -268,6 +268,9 @@ DsVal model_ds(const std::string &name, const std::string &arg, CallCtx &c) {
         const Proc *p = w.proc(w.pid);
         if (!p) { v.modelled = false; return v; }
         bool digits = true; for (char ch : arg) if (!isdigit((unsigned char)ch)) digits = false;
+        // the file is read in one piece by a reader for small files: 10 KiB or more is refused
+        { size_t total = 0; for (auto &l : p->cgroup) total += l.size() + 1;
+          if (total >= 10240) { v.failed = true; v.text = "Unable to read file /proc/" + std::to_string(w.pid) + "/cgroup, reason: INTERNAL ERROR: File too large for getSmallTextFileContent()"; return v; } }
         v.text = "(none)";
         for (auto &l : p->cgroup) {
             if (digits) { if (l.compare(0, arg.size() + 1, arg + ":") == 0) { v.text = l; break; } }
